@@ -674,3 +674,33 @@ package sam
 //@   after append#2: assert [c02.wrap.chunk] written + wrap < len(old) && len(new) == pre(1, len(new)) + wrap + 1 && forall(k, 0, wrap, new[pre(1, len(new)) + k] == old[written + k]) && new[len(new) - 1] == '\n'
 //@   after append#2: assert [c02.wrap.kept2] forall(k, 0, pre(1, len(new)), new[k] == pre(1, new[k]))
 //@   ensures [nowrap] implies(wrap <= 0, result == old + "\n")
+
+//@ # C12/C19 for `sam toPairAlign -o stdout`: pairs are written in input order (by idx) whatever order they arrive in; the
+//@ # pair whose headers are written is the counter-th by idx (asserted at its query header), the reference record precedes
+//@ # it unless omitted, rows go through wrap; a failed write is reported on cErr. posOf: idx -> arrival position.
+//@ spec posOf(k int) int uninterpreted
+//@ func writePairwiseAlignment
+//@   modifies everything
+//@   requires implies(p == "stdout", forall(k, 0, len(recv(cPair)), 0 <= posOf(k) && posOf(k) < len(recv(cPair)) && recv(cPair)[posOf(k)].idx == k))
+//@   requires implies(p == "stdout", forall(a, 0, len(recv(cPair)), 0 <= recv(cPair)[a].idx && recv(cPair)[a].idx < len(recv(cPair)) && posOf(recv(cPair)[a].idx) == a))
+//@   ghost gDone int = 0
+//@   loop 1:
+//@     invariant p == "stdout" && 0 <= counter && counter <= len(recv(cPair)) && !in(outputMap, counter) && gDone == counter
+//@     do-end gDone = counter
+//@     invariant forallint(k, in(outputMap, k) == (counter <= k && k < len(recv(cPair)) && posOf(k) < range_i))
+//@     invariant forall(k, counter, len(recv(cPair)), implies(posOf(k) < range_i, outputMap[k] == recv(cPair)[posOf(k)]))
+//@     invariant forall(k, 0, counter, posOf(k) < range_i)
+//@     invariant implies(failed(os.Stdout), len(sent(cErr)) >= 1) && len(sent(cWriteDone)) == 0
+//@     invariant len(written(os.Stdout)) == ite(omitRef, 2, 4) * counter
+//@   loop 2:
+//@     invariant p == "stdout" && 0 <= counter && counter <= len(recv(cPair))
+//@     invariant forallint(k, in(outputMap, k) == (counter <= k && k < len(recv(cPair)) && posOf(k) < range_i + 1))
+//@     invariant forall(k, counter, len(recv(cPair)), implies(posOf(k) < range_i + 1, outputMap[k] == recv(cPair)[posOf(k)]))
+//@     invariant forall(k, 0, counter, posOf(k) < range_i + 1)
+//@     invariant implies(failed(os.Stdout), len(sent(cErr)) >= 1) && len(sent(cWriteDone)) == 0
+//@     invariant len(written(os.Stdout)) == ite(omitRef, 2, 4) * counter
+//@     decreases len(recv(cPair)) - counter
+//@   ensures [c19.reported] implies(p == "stdout" && failed(os.Stdout), len(sent(cErr)) >= 1)
+//@   after call:Fprintln#2: assert [c12.order] AP == recv(cPair)[posOf(counter)] && AP.idx == counter && written(os.Stdout)[len(written(os.Stdout)) - 1] == ">" + AP.queryname + "\n"
+//@   after call:Fprintln#1: assert [c12.refrecord] written(os.Stdout)[len(written(os.Stdout)) - 1] == ">" + AP.refname + "\n"
+//@   before send#5: assert [c12.all] implies(p == "stdout", gDone == len(recv(cPair)) && len(written(os.Stdout)) == ite(omitRef, 2, 4) * len(recv(cPair)))
